@@ -36,6 +36,14 @@ func withInline(f func(), roots ...*ssa.Function) {
 	f()
 }
 
+// withoutInline runs f with the plain, per-function view (for rules with their own helper handling).
+func withoutInline(f func()) {
+	old := inlineAware
+	inlineAware = false
+	defer func() { inlineAware = old }()
+	f()
+}
+
 var (
 	siteProg  *ssa.Program
 	siteIndex map[*ssa.Function][]ssa.CallInstruction // static call sites in repository code
